@@ -185,6 +185,23 @@ func genShape(p *pkgInfo, out string) {
 			strings.Contains(hbt, "context.WithCancel(termCtx)"))
 	flag("termCancelledOnDemotion", "becomeFollower cancels the term context", strings.Contains(squash(p.src(bf.Body)), "e.termCancel()"))
 	flag("healthCountResetPerTerm", "becomeLeader resets the health failure count", strings.Contains(hbt, "e.healthFailureCount.Store(0)"))
+	// OnDemote never starts before the OnPromote of the same term: the promotion goroutine signals its start,
+	// everybody who ends a term waits for the signal
+	blBody := squash(p.src(p.fn("kvElection.becomeLeader").Body))
+	flag("promoteSignalsStart", "becomeLeader's callback goroutine closes the term's promoteStarted channel right before calling OnPromote",
+		strings.Contains(blBody, "started := make(chan struct{})") && strings.Contains(blBody, "e.promoteStarted = started") &&
+			strings.Contains(blBody, "close(started) onPromote(promoteCtx, token)"))
+	awaitOK := false
+	if fd, ok := p.funcs["kvElection.awaitPromoteStarted"]; ok {
+		awaitOK = strings.Contains(squash(p.src(fd.Body)), "<-e.promoteStarted")
+	}
+	enders := 0
+	for _, fn := range []string{"kvElection.becomeFollower", "kvElection.Stop", "kvElection.StopWithContext"} {
+		if strings.Contains(squash(p.src(p.fn(fn).Body)), "if wasLeader { e.awaitPromoteStarted() }") {
+			enders++
+		}
+	}
+	flag("termEndAwaitsPromoteStart", "becomeFollower, Stop and StopWithContext wait for that signal when they end a term", awaitOK && enders == 3)
 	// StopWithContext: one deadline for all its waits, key deletion not a blocking call of the caller
 	swc := squash(p.src(p.fn("kvElection.StopWithContext").Body))
 	flag("stopWaitsShareDeadline", "StopWithContext computes one deadline and every wait of it uses time.Until(deadline)",
